@@ -262,6 +262,12 @@ def c12_jobs(ctx, names, focus=()):
             cfg = {"max_cycles": r.choice([2, 4] if nm not in focus else [4, 10, 30]), "fitness_error": None, "early_stopping": None}
             jobs.append(({"opt": nm, "cfg": cfg, "task": search.cont_task(obj=obj, minmax="max", seed=seed, dim=dim, lo=lo, hi=hi)},
                          {"opt": nm, "cfg": cfg, "task": search.cont_task(obj="neg:" + obj, minmax="min", seed=seed, dim=dim, lo=lo, hi=hi)}))
+        # the direction written as the documented string AFTER construction (`task.minmax = "max"`): the task is a maximisation task like any other
+        if not ctx.quick or nm in focus or r.random() < 0.4:
+            seed = r.randint(0, 10**6)
+            cfg = {"max_cycles": 3, "fitness_error": None, "early_stopping": None}
+            jobs.append(({"opt": nm, "cfg": cfg, "task": search.cont_task(obj="shifted", minmax="max", seed=seed, raw_minmax=True)},
+                         {"opt": nm, "cfg": cfg, "task": search.cont_task(obj="neg:shifted", minmax="min", seed=seed, raw_minmax=r.choice([True, False]))}))
         # the same duality for a weighted multi-objective task (every objective negated, same weights)
         if not ctx.quick or nm in focus or r.random() < 0.5:
             mo = lambda obj_, mm_: {"vars": [("multiobj", ([-4.0, -4.0], [4.0, 4.0]))], "obj": obj_, "minmax": mm_, "weights": [0.3, 0.7], "seed": seed}
